@@ -883,7 +883,7 @@ def gen_odd_whitespace_lines(seed, big):
     """C02/C13: only spaces, tabs and line breaks are white space. A line made of other blank-looking characters
     (U+3000, U+00A0, U+2003, form feed) next to a removed block is a surviving non-blank line: it stays, byte for byte."""
     out = []
-    odd = ['\u3000', '\u00a0', '\u2003', '\x0c', '\u3000\u3000', ' \u3000', '\u00a0\t']
+    odd = ['\u3000', '\u00a0', '\u2003', '\x0c', '\u3000\u3000', ' \u3000', '\u00a0\t', '\u2028', '\u0085', '\ufeff', '\x0b', '\u200b', '\x00']
     for S in odd:
         for ind in ('', '  ', '\t'):
             blk = [ind + f"<{RM} name='f1'>", ind + '  removed', ind + f"</{RM}>"]
